@@ -8,7 +8,7 @@ import math
 import vlib
 from checks import numcommon as nc
 
-PROOF_MODULES = []
+PROOF_MODULES = ["Num/NumC05.vo"]
 OBLIGATIONS = [
     "C05/P_num_add_correct.v", "C05/P_num_sub_correct.v", "C05/P_num_mul_correct.v", "C05/P_num_div_correct.v",
     "C05/P_num_powint_correct.v", "C05/P_num_op_normalised.v", "C05/P_div_by_exact_zero.v",
